@@ -180,6 +180,7 @@ class Engine(object):
         self.div_witness = False
         self.resolve_bools = False
         self.fresh_tag = ''
+        self.params = None
         self.deadline = None      # wall-clock time after which exploration stops with EngineError
         self._cur_state = None
 
@@ -1418,6 +1419,15 @@ def _bi_concretize(eng, st, args, line):
     return eng.concretize(st, args[0], what='harness concretize')
 
 
+def _bi_param(eng, st, args, line):
+    i = args[0]
+    if type(i) is not int:
+        raise EngineError('symbolic parameter index')
+    if eng.params is None or i >= len(eng.params):
+        raise EngineError('harness parameter %d not supplied' % i)
+    return eng.params[i] & 0xffffffffffffffff
+
+
 def _bi_noop(eng, st, args, line):
     return None
 
@@ -1452,6 +1462,6 @@ _BUILTINS = {
     '__verif_assume': _bi_assume, '__verif_assert': _bi_assert,
     '__verif_observe': _bi_observe, '__verif_observe_str': _bi_observe_str,
     '__verif_observe_bytes': _bi_observe_bytes, '__verif_concretize': _bi_concretize,
-    '__verif_reach': _bi_reach,
+    '__verif_reach': _bi_reach, '__verif_param': _bi_param,
     '_ZdlPv': _bi_noop,
 }
